@@ -9,6 +9,7 @@ import (
 	"sort"
 	"strings"
 	"sync"
+	"sync/atomic"
 	"time"
 
 	formula "github.com/aundis/formula"
@@ -82,6 +83,23 @@ var C09Trees = []string{
 	"sel ? nul!.alpha : nul!.beta",
 	// a local counted up in the thread's OWN (empty) data map
 	"$seen = ($seen ?? 0) + 1",
+	// lists of constants only: every evaluation hands out a list of its own, which its consumer may write to
+	"['alpha', 'beta', true, null]",
+	"[z ? ['p', 'q'] : ['r'], ['x', \"y\"], [null]]",
+	// a long list whose first element binds a local that every later element reads (thread's own data map)
+	"[$a = 7" + strings.Repeat(", $a", 32) + "]",
+}
+
+var c09OwnCounter atomic.Int64
+
+// scribbleLists overwrites every element of every list inside v (the consumer owns its result).
+func scribbleLists(v interface{}, mark string) {
+	if l, ok := v.([]interface{}); ok {
+		for i := range l {
+			scribbleLists(l[i], mark)
+			l[i] = mark
+		}
+	}
 }
 
 // C09Variants: per-thread data variants for the data-dependent trees.
@@ -171,6 +189,29 @@ func C09Body(name string) func() string {
 	case "eval2":
 		// the same evaluation twice in a row (own runner each time): a corrupted cache shows on the second
 		return func() string { return evalOnce() + " ; " + evalOnce() }
+	case "own":
+		// the consumer stamps the lists of its result, lets others run, and looks again: its stamps are
+		// still there, and a later evaluation is as if nobody had ever written to an earlier result
+		return func() string {
+			r := formula.NewRunner()
+			r.SetThis(c08Data())
+			o := safeResolve(r, bg, c09Shared[idx].Expression)
+			if o.panicked || o.err != nil {
+				return "own: evaluation failed " + o.panicMsg
+			}
+			first := showExact(o.val)
+			mark := fmt.Sprintf("mine-%d", c09OwnCounter.Add(1))
+			scribbleLists(o.val, mark)
+			stamped := showExact(o.val)
+			sched.Point("harness:consumer-wrote-to-its-list")
+			if now := showExact(o.val); now != stamped {
+				return "own-list-changed: a consumer stamped its result " + stamped + " and later finds " + now
+			}
+			if again := evalOnce(); again != first {
+				return "own-list-changed: " + first + " was handed out and written to by its consumer; the next evaluation gives " + again
+			}
+			return first
+		}
 	case "fields":
 		return func() (obs string) {
 			defer func() {
@@ -255,6 +296,11 @@ func C09Scenarios(quick bool) [][]string {
 	sc = append(sc, []string{"eval:9:1", "eval:9:2", "eval:4"}, []string{"!cold", "eval:10:0", "eval:10:1"})
 	sc = append(sc, []string{"eval:12:0", "eval:12:1"}, []string{"eval2:12:1", "eval:12:0"}, []string{"eval:12:0", "eval:2", "eval:12:1"})
 	sc = append(sc, []string{"eval:13:3", "eval:13:3"}, []string{"eval2:13:3", "eval:13:3"}, []string{"eval:13:3", "eval:3"})
+	sc = append(sc, []string{"eval:16:3", "eval:16:3"})
+	if !quick {
+		sc = append(sc, []string{"eval2:16:3", "fields:16"})
+	}
+	sc = append(sc, []string{"own:14", "own:14"}, []string{"own:14", "eval:14"}, []string{"own:15", "own:15"}, []string{"own:15", "fields:15"})
 	sc = append(sc, []string{"parse:3", "parse:4"}, []string{"parse:3", "bad:3"}, []string{"bad:3", "bad:4"}, []string{"eval:6:0", "parse:4"})
 	// cold start: the shared trees are parsed anew before every execution, so that the very first
 	// evaluations of a tree are the concurrent ones (lazily filled per-node state is cold)
@@ -292,7 +338,10 @@ func judgeSched(c SchedCase) *eng.Fail {
 	}
 	threads, cold := threadsOf(c.Threads)
 	for _, n := range threads {
-		if obs := sequentialObs(n); strings.Contains(obs, sched.BlockedForever) {
+		if obs := sequentialObs(n); strings.HasPrefix(obs, "own-list-changed") {
+			delete(c09Sequential, n)
+			return eng.F("C09/result-not-owned", "%s (even without interleaving): %s", n, tail200(obs))
+		} else if strings.Contains(obs, sched.BlockedForever) {
 			delete(c09Sequential, n)
 			return eng.F("C09/deadlock", "%s, run alone after the other bodies of this scenario had run alone, waits forever for a lock that an earlier call left locked: %s", n, tail200(obs))
 		}
